@@ -80,6 +80,10 @@ pub enum CcEdit {
     PolyIndexOutOfRange,
     WitnessIndexOutOfRange,
     ScalarNonCanonical,
+    /// a non-canonical scalar appended to the scalar table; no selector row refers to it
+    SpareScalarNonCanonical(usize),
+    /// a selector row nobody refers to, with a scalar index beyond the table
+    OrphanPolynomialBadIndex,
     ExtraConstraints(usize),
     ExtraPolynomials(usize),
     ExtraScalars(usize),
@@ -109,6 +113,8 @@ impl CcEdit {
             CcEdit::PolyIndexOutOfRange => "cc.poly_index_out_of_range",
             CcEdit::WitnessIndexOutOfRange => "cc.witness_index_out_of_range",
             CcEdit::ScalarNonCanonical => "cc.scalar_noncanonical",
+            CcEdit::SpareScalarNonCanonical(_) => "cc.spare_scalar_noncanonical",
+            CcEdit::OrphanPolynomialBadIndex => "cc.orphan_polynomial_bad_index",
             CcEdit::ExtraConstraints(_) => "cc.extra_constraints",
             CcEdit::ExtraPolynomials(_) => "cc.extra_polynomials",
             CcEdit::ExtraScalars(_) => "cc.extra_scalars",
@@ -135,6 +141,8 @@ impl CcEdit {
                 | CcEdit::PolyIndexOutOfRange
                 | CcEdit::WitnessIndexOutOfRange
                 | CcEdit::ScalarNonCanonical
+                | CcEdit::SpareScalarNonCanonical(_)
+                | CcEdit::OrphanPolynomialBadIndex
                 | CcEdit::TrailingPacked(_)
                 | CcEdit::TrailingDeflate(_)
                 | CcEdit::HugeArrayHeader(_)
@@ -143,7 +151,9 @@ impl CcEdit {
 }
 
 pub fn random_edit(rng: &mut Rng) -> CcEdit {
-    match rng.below(22) {
+    match rng.below(24) {
+        22 => CcEdit::SpareScalarNonCanonical(rng.usize(4)),
+        23 => CcEdit::OrphanPolynomialBadIndex,
         20 => CcEdit::NoMultiplication,
         21 => CcEdit::DropLeadingRows(1 + rng.usize(4)),
         0 => CcEdit::PiOutOfRange,
@@ -230,6 +240,28 @@ pub fn apply(valid: &[u8], edit: &CcEdit, rng: &mut Rng) -> Option<Vec<u8>> {
                 let i = rng.usize(c.scalars.len());
                 c.scalars[i] = r;
             }
+        }
+        CcEdit::SpareScalarNonCanonical(variant) => {
+            // r, r + 1, 2^256 - 1, 2^255: none is the canonical encoding of a field element
+            let mut v: [u8; 32] = [
+                0x01, 0x00, 0x00, 0x00, 0xff, 0xff, 0xff, 0xff, 0xfe, 0x5b, 0xfe, 0xff, 0x02, 0xa4, 0xbd, 0x53, 0x05, 0xd8, 0xa1, 0x09, 0x08,
+                0xd8, 0x39, 0x33, 0x48, 0x7d, 0x9d, 0x29, 0x53, 0xa7, 0xed, 0x73,
+            ];
+            match variant % 4 {
+                0 => {}
+                1 => v[0] = 0x02,
+                2 => v = [0xff; 32],
+                _ => {
+                    v = [0u8; 32];
+                    v[31] = 0x80;
+                }
+            }
+            c.scalars.push(v);
+        }
+        CcEdit::OrphanPolynomialBadIndex => {
+            let mut p = *c.polynomials.last()?;
+            p.q_o = usize::MAX >> rng.below(40);
+            c.polynomials.push(p);
         }
         CcEdit::ExtraConstraints(k) => {
             let last = *c.constraints.last()?;
